@@ -88,7 +88,7 @@ def core_all_fids(spec):
 
 
 def run(ctx):
-    n = 150 if ctx.tier == "quick" else 1700
+    n = 150 if ctx.tier == "quick" else 9000
     if ctx.replay:
         c = ctx.replay["case"]
         check_case(ctx, c["spec"], c["provided"], c["select"], c["runner"], "replay")
